@@ -313,7 +313,7 @@ def flag_chain(P, b, s):
         if fs["kind"] == "is_admin":
             for sg, vals, term in c.guards(fs["block"]):
                 atom, truth = mir.cond_atoms(term, vals)
-                if atom == ("var", "need_room_admin") and truth is True:
+                if atom[:2] == ("var", "need_room_admin") and truth is True:
                     okf, _ = rights.check_refusal(c, fs["block"])
                     final = final or okf
     det.append("need_room_admin && !is_admin -> Err in the caller: %s" % final)
